@@ -135,8 +135,38 @@ def havoc(it, spec, s, frame, extra_nodes=()):
         if k is None:
             raise OutOfSubset(f"loop havoc: no kind for local {n}={cur!r}; give LoopSpec.havoc")
         frame.locals[n] = k.fresh(n)
-    for n in spec.mutates:
-        obj = frame.lookup(n)
+    # containers mutated through method calls / item assignment in the loop body:
+    # detected syntactically so that an edit adding a new accumulator cannot
+    # silently escape the havoc (soundness of the cut)
+    from .models import _MUTATORS
+    mutated = list(spec.mutates)
+    for root in ([s] if not extra_nodes else list(extra_nodes)):
+        for nd in ast.walk(root):
+            tgt = None
+            if isinstance(nd, ast.Call) and isinstance(nd.func, ast.Attribute) and nd.func.attr in _MUTATORS:
+                tgt = nd.func.value
+            elif isinstance(nd, ast.Subscript) and isinstance(nd.ctx, (ast.Store, ast.Del)):
+                tgt = nd.value
+            elif isinstance(nd, ast.Attribute) and isinstance(nd.ctx, (ast.Store, ast.Del)):
+                tgt = nd.value
+            if tgt is None:
+                continue
+            if isinstance(tgt, ast.Name):
+                if tgt.id not in mutated and tgt.id not in names:
+                    mutated.append(tgt.id)
+                elif tgt.id in names and tgt.id not in mutated and tgt.id in frame.locals:
+                    mutated.append(tgt.id)
+            elif ast.unparse(tgt) not in getattr(spec, "frame_ok", ()):
+                raise OutOfSubset(f"loop mutates {ast.unparse(tgt)}: not covered by the loop contract's frame")
+    for n in mutated:
+        try:
+            obj = frame.lookup(n)
+        except PyRaise:
+            continue  # created inside the loop body
+        if n not in spec.mutates and not isinstance(obj, (MutSet, MutList)):
+            if isinstance(obj, (list, dict, set)) or has_sym(obj):
+                raise OutOfSubset(f"loop mutates {n}={type(obj).__name__}: not covered by the loop contract")
+            continue
         if isinstance(obj, MutSet):
             if n in spec.havoc:
                 obj.val = spec.havoc[n].fresh(n)
@@ -209,9 +239,9 @@ def exec_for(it, s, frame):
         return
     n = view.length_
     label = f"{it.label}.loop{ordn}"
+    if it.bounded:  # bounded mode ignores loop contracts: plain unrolling
+        return bounded_for(it, s, frame, view)
     if spec is None:
-        if it.bounded:
-            return bounded_for(it, s, frame, view)
         raise OutOfSubset(f"loop {ordn} of {frame.closure.name} over a symbolic collection has no invariant")
     extra = {"_n": n, "_at": view.at}
     ex.oblige(f"{label}.inv_entry", spec.inv(_ns(it, frame, spec, extra), 0), kind="loop-invariant-entry")
@@ -228,7 +258,11 @@ def exec_for(it, s, frame):
         ex.assume(And(k >= 0, k < n))
         ex.assume(spec.inv(_ns(it, frame, spec, extra), k))
         ex.cover(f"{label}.iteration")
-        it.assign(s.target, view.at(k), frame)
+        elem = view.at(k)
+        if spec.elem_assume is not None:
+            ex.assume(spec.elem_assume(elem))  # type invariant of the elements (a stated precondition)
+        it.loop_k[(frame.closure.ext.qualname, ordn)] = k
+        it.assign(s.target, elem, frame)
         try:
             it.exec_block(s.body, frame)
         except _Continue:
@@ -267,7 +301,7 @@ def exec_while(it, s, frame):
     ex = it.ex
     spec, ordn = spec_for(it, s, frame)
     label = f"{it.label}.loop{ordn}"
-    if spec is None:
+    if spec is None or it.bounded:
         count = 0
         limit = it.bounded.get("unroll", 3) if it.bounded else MAX_UNROLL
         while True:
